@@ -16,16 +16,17 @@
      Keq / Kineq Y i j   the reduced operators over the L2 system of KKTProofs.v (a_SA, a_SG, a_bdiag, a_dinv), upper triangle:
                          Keq   = [[P + (rho + box) I + (1/delta) A^T A, G^T], [., -(S Z^-1 + delta I)]]
                          Kineq = [[P + (rho + box) I + G^T (S Z^-1 + delta I)^-1 G, A^T], [., -delta I]].
-   NOT proved (named ..._partial where a weaker statement is given):
-     * update_data: only the masks that do not re-transpose the cached block (EQ: no KKT_UPDATE_A, INEQ: no KKT_UPDATE_G) and only
-       relative to the static invariant of the NEW data; the transfer of the static invariant across a same-pattern change of the
-       data and the re-transposition branch (transpose_no_alloc + update_AT_A; lemmas retranspose_ok / scatter_cache_ok of
-       KKTSparseAllProofs.v apply) are not composed; hence "update_data = fresh init" is not stated;
-     * the values init leaves (unit scalings): init is shown to succeed and to establish the static invariant, from which every
-       update_scalings reaches the canonical form; INEQ create states the top left block through the cached product
-       csc_get (em_XX em) rather than expanded to (G^T G)/(1 + delta);
-     * permuted orderings (init .. (Some perm)): compared by the stage only. *)
-From PIQP Require Import Base CSC C14LemmasProofs LinAlg KKTProofs KKTSparseFull KKTSparseFullProofs KKTSparseAll KKTSparseAllProofs
+     covers_eq / covers_ineq mask d px ax gx lbs ubs   the mask covers the changed blocks: new A values => KKT_UPDATE_A (EQ), new G values
+                         => KKT_UPDATE_G (INEQ), anything changed => mask <> 0; with_all d px ax gx lbs ubs = the data d with new values on
+                         the same patterns;
+     canon_cache XT X    X has the inner / outer indices of Eigen's transposition of XT (true after init, kept by every operation).
+   Proved for both modes: create_kkt_matrix (well-formed, upper, diagonal last, maps in range and injective, entries), init leaves
+   the canonical form for the unit scalings (box terms included), update_scalings from ANY state with the static invariant reaches
+   the canonical form, the canonical form denotes Keq / Kineq, update_data(covering mask) on same-pattern new data keeps the static
+   invariant for the NEW data and (mask <> 0) reaches its canonical form, and update_data(covering mask); update_scalings leaves
+   exactly the stored matrix (outer index, inner index, values) of a fresh init on the new data followed by the same update_scalings.
+   NOT proved: permuted orderings (init .. (Some perm)): compared by the stage only. *)
+From PIQP Require Import Base CSC C14LemmasProofs LinAlg KKTProofs KKTSparseFull KKTSparseFullProofs KKTSparseAll KKTSparseAllProofs KKTSparseAllDataProofs
   KKTSparseEq KKTSparseIneq KKTSparseEqProofs KKTSparseIneqProofs.
 Local Open Scope nat_scope.
 
@@ -75,21 +76,52 @@ Theorem C13_eq_form_denotes : forall d : sdata, elim_data_ok d (sd_GT d) -> fora
 Proof. exact eq_form_denotes. Qed.
 Print Assumptions C13_eq_form_denotes.
 
-Theorem C13_eq_update_data_partial : forall d : sdata, elim_data_ok d (sd_GT d) -> forall (X : csc F) (k : ekkt) (options : nat),
-  Nat.testbit options 1 = false -> options <> 0 -> eqS d X k -> scal_ok d (ek_sc k) -> sc_delta (ek_sc k) <> 0%Qc ->
-  exists k', eq_update_data d k options = Ok k' /\ eqF d X (ek_sc k) k'.
-Proof. exact eq_update_data_partial. Qed.
-Print Assumptions C13_eq_update_data_partial.
+Theorem C13_eq_init_form : forall d : sdata, elim_data_ok d (sd_GT d) -> forall (rho : F) (delta : Qc), delta <> 0%Qc ->
+  scal_ok d (unit_scal d rho delta) ->
+  exists k X, eq_init d rho delta None = Ok k /\ eqF d X (unit_scal d rho delta) k /\ csc_transpose (sd_AT d) = Ok X.
+Proof. exact eq_init_form. Qed.
+Print Assumptions C13_eq_init_form.
+
+Theorem C13_eq_update_data_form : forall (d : sdata) (Hok : elim_data_ok d (sd_GT d)) (X : csc F) (k : ekkt) (mask : nat) (px ax gx lbs ubs : Vec),
+  eqS d X k -> length px = nnz (sd_P d) -> length ax = nnz (sd_AT d) -> length gx = nnz (sd_GT d) ->
+  covers_eq mask d px ax gx lbs ubs ->
+  let d' := with_all d px ax gx lbs ubs in
+  (mask <> 0 -> scal_ok d' (ek_sc k) /\ sc_delta (ek_sc k) <> 0%Qc) ->
+  exists k' X', eq_update_data d' k mask = Ok k' /\ eqS d' X' k' /\ ek_sc k' = ek_sc k /\
+    rowind X' = rowind X /\ colptr X' = colptr X /\
+    (mask <> 0 -> eqF d' X' (ek_sc k) k') /\ (mask = 0 -> k' = k).
+Proof. exact eq_update_data_form. Qed.
+Print Assumptions C13_eq_update_data_form.
+
+Theorem C13_eq_update_data_eq_fresh : forall (d : sdata) (X : csc F) (k : ekkt) (mask : nat) (px ax gx lbs ubs : Vec)
+    (rho0 delta0 rho delta : F) (s s_lb s_ub z z_lb z_ub zi zlbi zubi : Vec),
+  elim_data_ok d (sd_GT d) -> eqS d X k -> canon_cache (sd_AT d) X ->
+  length px = nnz (sd_P d) -> length ax = nnz (sd_AT d) -> length gx = nnz (sd_GT d) ->
+  covers_eq mask d px ax gx lbs ubs ->
+  let d' := with_all d px ax gx lbs ubs in
+  (mask <> 0 -> scal_ok d' (ek_sc k) /\ sc_delta (ek_sc k) <> 0%Qc) ->
+  delta0 <> 0%Qc -> scal_ok d' (unit_scal d' rho0 delta0) ->
+  sd_nlb d <= length s_lb -> sd_nlb d <= length z_lb -> sd_nub d <= length s_ub -> sd_nub d <= length z_ub ->
+  vinv z = Ok zi -> vinv (head (sd_nlb d) z_lb) = Ok zlbi -> vinv (head (sd_nub d) z_ub) = Ok zubi ->
+  (forall c0, scal_ok d' (new_scal d' c0 rho delta s s_lb s_ub zi zlbi zubi)) -> delta <> 0%Qc ->
+  exists k1 k2 k0 k3 X',
+    eq_update_data d' k mask = Ok k1 /\ eq_update_scalings d' k1 rho delta s s_lb s_ub z z_lb z_ub = Ok k2 /\
+    eq_init d' rho0 delta0 None = Ok k0 /\ eq_update_scalings d' k0 rho delta s s_lb s_ub z z_lb z_ub = Ok k3 /\
+    eqF d' X' (new_scal d' (ek_sc k) rho delta s s_lb s_ub zi zlbi zubi) k2 /\ canon_cache (sd_AT d') X' /\
+    ek_kp k2 = ek_kp k3 /\ ek_ki k2 = ek_ki k3 /\ ek_kx k2 = ek_kx k3.
+Proof. exact eq_update_data_scalings_eq_fresh. Qed.
+Print Assumptions C13_eq_update_data_eq_fresh.
 
 (* ===== KKT_INEQ_ELIMINATED ===== *)
-Theorem C13_ineq_create_partial : forall d : sdata, elim_data_ok d (sd_AT d) -> forall (rho : F) (delta : Qc), (1 + delta)%Qc <> 0%Qc ->
+Theorem C13_ineq_create : forall d : sdata, elim_data_ok d (sd_AT d) -> forall (rho : F) (delta : Qc), (1 + delta)%Qc <> 0%Qc ->
   exists em, ineq_create d rho delta = Ok em /\
     created_ok (sd_n d + sd_p d) (sd_P d) (sd_AT d) em (fun i j =>
-      if j <? sd_n d then (csc_get (sd_P d) i j + (if i =? j then rho else 0) + csc_get (em_XX em) i j)%Qc
+      if j <? sd_n d then (csc_get (sd_P d) i j + (if i =? j then rho else 0)
+                           + sum_n (sd_m d) (fun l => (csc_get (sd_GT d) i l * csc_get (sd_GT d) j l)%Qc) * (1 / (1 + delta)))%Qc
       else if i <? sd_n d then csc_get (sd_AT d) i (j - sd_n d) else if i =? j then (- delta)%Qc else 0%Qc) /\
     em_tmp em = repeat 0%Qc (sd_n d).
 Proof. exact ineq_create_thm. Qed.
-Print Assumptions C13_ineq_create_partial.
+Print Assumptions C13_ineq_create.
 
 Theorem C13_ineq_init_static : forall d : sdata, elim_data_ok d (sd_AT d) -> forall (rho : F) (delta : Qc), (1 + delta)%Qc <> 0%Qc ->
   scal_ok d (unit_scal d rho delta) ->
@@ -115,11 +147,43 @@ Theorem C13_ineq_form_denotes : forall d : sdata, elim_data_ok d (sd_AT d) -> fo
 Proof. exact ineq_form_denotes. Qed.
 Print Assumptions C13_ineq_form_denotes.
 
-Theorem C13_ineq_update_data_partial : forall d : sdata, elim_data_ok d (sd_AT d) -> forall (X : csc F) (k : ekkt) (options : nat),
-  Nat.testbit options 2 = false -> options <> 0 -> ineqS d X k -> scal_ok d (ek_sc k) -> ineq_wnz d (ek_sc k) ->
-  exists k', ineq_update_data d k options = Ok k' /\ ineqF d X (ek_sc k) k'.
-Proof. exact ineq_update_data_partial. Qed.
-Print Assumptions C13_ineq_update_data_partial.
+Theorem C13_ineq_init_form : forall d : sdata, elim_data_ok d (sd_AT d) -> forall (rho : F) (delta : Qc), (1 + delta)%Qc <> 0%Qc ->
+  scal_ok d (unit_scal d rho delta) ->
+  exists k X, ineq_init d rho delta None = Ok k /\ ineqF d X (unit_scal d rho delta) k /\ csc_transpose (sd_GT d) = Ok X.
+Proof. exact ineq_init_form. Qed.
+Print Assumptions C13_ineq_init_form.
+
+Theorem C13_ineq_update_data_form : forall (d : sdata) (X : csc F) (k : ekkt) (mask : nat) (px ax gx lbs ubs : Vec),
+  elim_data_ok d (sd_AT d) -> ineqS d X k ->
+  length px = nnz (sd_P d) -> length ax = nnz (sd_AT d) -> length gx = nnz (sd_GT d) ->
+  covers_ineq mask d px ax gx lbs ubs ->
+  let d' := with_all d px ax gx lbs ubs in
+  (mask <> 0 -> scal_ok d' (ek_sc k) /\ ineq_wnz d' (ek_sc k)) ->
+  exists k' X', ineq_update_data d' k mask = Ok k' /\ ineqS d' X' k' /\ ek_sc k' = ek_sc k /\
+    rowind X' = rowind X /\ colptr X' = colptr X /\
+    (mask <> 0 -> ineqF d' X' (ek_sc k) k') /\ (mask = 0 -> k' = k).
+Proof. exact ineq_update_data_form. Qed.
+Print Assumptions C13_ineq_update_data_form.
+
+Theorem C13_ineq_update_data_eq_fresh : forall (d : sdata) (X : csc F) (k : ekkt) (mask : nat) (px ax gx lbs ubs : Vec)
+    (rho0 delta0 rho delta : F) (s s_lb s_ub z z_lb z_ub zi zlbi zubi : Vec),
+  elim_data_ok d (sd_AT d) -> ineqS d X k -> canon_cache (sd_GT d) X ->
+  length px = nnz (sd_P d) -> length ax = nnz (sd_AT d) -> length gx = nnz (sd_GT d) ->
+  covers_ineq mask d px ax gx lbs ubs ->
+  let d' := with_all d px ax gx lbs ubs in
+  (mask <> 0 -> scal_ok d' (ek_sc k) /\ ineq_wnz d' (ek_sc k)) ->
+  (1 + delta0)%Qc <> 0%Qc -> scal_ok d' (unit_scal d' rho0 delta0) ->
+  sd_nlb d <= length s_lb -> sd_nlb d <= length z_lb -> sd_nub d <= length s_ub -> sd_nub d <= length z_ub ->
+  vinv z = Ok zi -> vinv (head (sd_nlb d) z_lb) = Ok zlbi -> vinv (head (sd_nub d) z_ub) = Ok zubi ->
+  (forall c0, scal_ok d' (new_scal d' c0 rho delta s s_lb s_ub zi zlbi zubi)) ->
+  (forall l, l < sd_m d -> (nth l s 0 * nth l zi 0 + delta)%Qc <> 0%Qc) ->
+  exists k1 k2 k0 k3 X',
+    ineq_update_data d' k mask = Ok k1 /\ ineq_update_scalings d' k1 rho delta s s_lb s_ub z z_lb z_ub = Ok k2 /\
+    ineq_init d' rho0 delta0 None = Ok k0 /\ ineq_update_scalings d' k0 rho delta s s_lb s_ub z z_lb z_ub = Ok k3 /\
+    ineqF d' X' (new_scal d' (ek_sc k) rho delta s s_lb s_ub zi zlbi zubi) k2 /\ canon_cache (sd_GT d') X' /\
+    ek_kp k2 = ek_kp k3 /\ ek_ki k2 = ek_ki k3 /\ ek_kx k2 = ek_kx k3.
+Proof. exact ineq_update_data_scalings_eq_fresh. Qed.
+Print Assumptions C13_ineq_update_data_eq_fresh.
 
 (* ===== non-vacuity: P 3x3 without stored (1,1), p = 1 (A = [1 0 2]), m = 1 (G = [0 5 0]), one lower and one upper bound ===== *)
 Local Open Scope Qc_scope.
@@ -150,3 +214,22 @@ Example exq_ineq_scalings : exists k k', ineq_init exq_d (exq_q 10) (exq_q 7) No
   ineq_update_scalings exq_d k (exq_q 3) (qmk 1 2) [exq_q 2] [exq_q 3] [exq_q 5] [exq_q 4] [qmk 1 7] [exq_q 3] = Ok k' /\
   this (nth 7 (ek_kx k') 0) = (-1 # 2)%Q /\ map this (vals (ek_XX k')) = [25 # 1]%Q /\ map this (ek_tmp k') = [0 # 1; 0 # 1; 0 # 1]%Q.
 Proof. eexists. eexists. split. vm_compute. reflexivity. split. vm_compute. reflexivity. repeat split; vm_compute; reflexivity. Qed.
+(* update_data with all blocks changed and the full mask, then update_scalings == fresh init on the new data, then update_scalings *)
+Definition exq_d' : sdata :=
+  with_all exq_d [exq_q 6; exq_q 2; exq_q 5; exq_q 9] [exq_q 3; exq_q (-1)] [exq_q 7] [exq_q 3; exq_q 1; exq_q 1] [exq_q 2; exq_q 1; exq_q 1].
+Example exq_eq_data : exists k k1 k2 k0 k3, eq_init exq_d (exq_q 10) (exq_q 7) None = Ok k /\
+  eq_update_data exq_d' k 7 = Ok k1 /\
+  eq_update_scalings exq_d' k1 (exq_q 3) (qmk 1 2) [exq_q 2] [exq_q 3] [exq_q 5] [exq_q 4] [qmk 1 7] [exq_q 3] = Ok k2 /\
+  eq_init exq_d' (exq_q 1) (exq_q 2) None = Ok k0 /\
+  eq_update_scalings exq_d' k0 (exq_q 3) (qmk 1 2) [exq_q 2] [exq_q 3] [exq_q 5] [exq_q 4] [qmk 1 7] [exq_q 3] = Ok k3 /\
+  ek_kp k2 = ek_kp k3 /\ ek_ki k2 = ek_ki k3 /\ map this (ek_kx k2) = map this (ek_kx k3).
+Proof. do 5 eexists. split. vm_compute. reflexivity. split. vm_compute. reflexivity. split. vm_compute. reflexivity.
+  split. vm_compute. reflexivity. split. vm_compute. reflexivity. repeat split. Qed.
+Example exq_ineq_data : exists k k1 k2 k0 k3, ineq_init exq_d (exq_q 10) (exq_q 7) None = Ok k /\
+  ineq_update_data exq_d' k 7 = Ok k1 /\
+  ineq_update_scalings exq_d' k1 (exq_q 3) (qmk 1 2) [exq_q 2] [exq_q 3] [exq_q 5] [exq_q 4] [qmk 1 7] [exq_q 3] = Ok k2 /\
+  ineq_init exq_d' (exq_q 1) (exq_q 2) None = Ok k0 /\
+  ineq_update_scalings exq_d' k0 (exq_q 3) (qmk 1 2) [exq_q 2] [exq_q 3] [exq_q 5] [exq_q 4] [qmk 1 7] [exq_q 3] = Ok k3 /\
+  ek_kp k2 = ek_kp k3 /\ ek_ki k2 = ek_ki k3 /\ map this (ek_kx k2) = map this (ek_kx k3).
+Proof. do 5 eexists. split. vm_compute. reflexivity. split. vm_compute. reflexivity. split. vm_compute. reflexivity.
+  split. vm_compute. reflexivity. split. vm_compute. reflexivity. repeat split. Qed.
